@@ -218,7 +218,12 @@ class RSync:
         ):
             sourcedir = "\\\\?\\" + self._sourcedir
         try:
-            relpath = os.path.relpath(linkpoint, sourcedir)
+            if os.path.isabs(linkpoint):
+                relpath = os.path.relpath(linkpoint, sourcedir)
+            else:
+                # a relative link is relative to its own directory, not to the
+                # current working directory: it is copied as it is
+                relpath = None
         except ValueError:
             relpath = None
         if (
